@@ -1,121 +1,330 @@
 import LocustModel.Query.Merge
+import LocustModel.Lemmas.C05Judge
+import LocustModel.Lemmas.C05Val
+import LocustModel.Lemmas.C05Tree
+import LocustModel.Lemmas.C05Multi2
+import LocustModel.Lemmas.C05TopN
+import LocustModel.Query.OrderFused
+import LocustModel.Lemmas.C05Fused
 /-
-  C05 — ORDER BY / LIMIT / OFFSET.  Property theorems about the merge of sorted partial results.
+  C05 — ORDER BY / LIMIT / OFFSET.  Property theorems.
+
+  Specification (Query/OrderSpec.lean): `OrderSpec le rows out n m` — `out` is rows m+1..m+n of SOME arrangement
+  of the filtered rows sorted by the keys (ties in any order); without ORDER BY exactly `plainSpec`.
+  Implementation model (Query/Order.lean): per-partition stable sorts or top-n, pairwise limited merges
+  along an arbitrary tree, final slice.
 -/
 namespace LM.C05
-open LM LM.Merge
+open LM LM.Sql LM.Merge LM.OrderSpec LM.Order
 
-/-- The comparator's order as a relation: `a` may precede `b`. -/
-def le (desc : Bool) (a b : Int) : Prop := if desc then a ≥ b else a ≤ b
+/-! ## 1. The executable judge decides the declarative property -/
 
-theorem cmpEq_iff (desc : Bool) (a b : Int) : cmpEq desc a b = true ↔ le desc a b := by
-  cases desc <;> simp [cmpEq, le]
+/-- Whatever the judge accepts is rows m+1..m+n of a sorted arrangement of the filtered rows. -/
+theorem C05_judge_sound {α : Type} [DecidableEq α] (le : α → α → Bool) (rows out : List α) (n m : Nat)
+    (h : judge le rows out n m = .ok) : OrderSpec le rows out n m := judge_sound le rows out n m h
 
-theorem le_total (desc : Bool) (a b : Int) : le desc a b ∨ le desc b a := by
-  cases desc <;> simp [le] <;> omega
+/-- Every output that satisfies the property is accepted (no false alarm), for any total preorder. -/
+theorem C05_judge_complete {α : Type} [DecidableEq α] {le : α → α → Bool} (hle : TotalPre le)
+    (rows out : List α) (n m : Nat) (h : OrderSpec le rows out n m) : judge le rows out n m = .ok :=
+  judge_complete hle rows out n m h
 
-theorem le_trans (desc : Bool) {a b c : Int} (h1 : le desc a b) (h2 : le desc b c) : le desc a c := by
-  cases desc <;> simp [le] at * <;> omega
+theorem C05_judge_iff {α : Type} [DecidableEq α] {le : α → α → Bool} (hle : TotalPre le)
+    (rows out : List α) (n m : Nat) : judge le rows out n m = .ok ↔ OrderSpec le rows out n m :=
+  ⟨judge_sound le rows out n m, judge_complete hle rows out n m⟩
 
-/-- The limited merge the engine runs is exactly the first `n` elements of the full stable merge,
-    for all inputs and every limit (this is what makes "each partition keeps limit+offset rows" sound). -/
-theorem C05_merge_eq_take (desc : Bool) (l r : List Int) (n : Nat) :
-    (merge desc l r n).1 = (mergeAll desc l r).take n := by
-  fun_induction merge desc l r n <;> simp_all [mergeAll]
+/-- The comparator the judge is run with (keys with directions, NULL last / first when descending,
+    lexicographic) is a total preorder on all rows. -/
+theorem C05_keys_total_preorder (dirs : List Bool) : TotalPre (itemLe dirs) := itemLe_totalPre dirs
 
-/-- The flags have the same length as the merged keys. -/
-theorem C05_merge_ops_length (desc : Bool) (l r : List Int) (n : Nat) :
-    (merge desc l r n).2.length = (merge desc l r n).1.length := by
-  fun_induction merge desc l r n <;> simp_all
+/-- … and it is the shared reference semantics' order: the negation of `Sql.keysLt` (Query/Sql.lean) with the
+    arguments swapped, on key tuples of the right length. -/
+theorem C05_keys_agree_with_shared_spec (dirs : List Bool) (a b : List Val) (ha : a.length = dirs.length)
+    (hb : b.length = dirs.length) : keysLe dirs a b = !Sql.keysLt (b.zip dirs) (a.zip dirs) :=
+  keysLe_eq_not_keysLt dirs a b ha hb
 
-theorem mergeKeep_left_tail {α : Type} (l r : List α) (n : Nat) :
-    mergeKeep ((l.take n).map fun _ => 1) l r = some (l.take n) := by
-  induction l generalizing n with
-  | nil => simp [mergeKeep]
-  | cons a l ih =>
-    cases n with
-    | zero => simp [mergeKeep]
-    | succ n => simp [mergeKeep]; rw [← List.map_take]; exact ih n
+/-- The property pins down everything except the order inside tie classes: two outputs that both satisfy it
+    agree position by position up to ties. -/
+theorem C05_spec_determines_keys {α : Type} {le : α → α → Bool} (hle : TotalPre le) (rows o₁ o₂ : List α) (n m : Nat)
+    (h₁ : OrderSpec le rows o₁ n m) (h₂ : OrderSpec le rows o₂ n m) :
+    F2 (fun a b => eqv le a b = true) o₁ o₂ := by
+  obtain ⟨s₁, p₁, hs₁, rfl⟩ := h₁
+  obtain ⟨s₂, p₂, hs₂, rfl⟩ := h₂
+  exact forall2_take n (forall2_drop m (sorted_perm_forall2 hle hs₁ hs₂ (p₁.trans p₂.symm)))
 
-theorem mergeKeep_right_tail {α : Type} (l r : List α) (n : Nat) :
-    mergeKeep ((r.take n).map fun _ => 0) l r = some (r.take n) := by
-  induction r generalizing n with
-  | nil => simp [mergeKeep]
-  | cons b r ih =>
-    cases n with
-    | zero => simp [mergeKeep]
-    | succ n => simp [mergeKeep]; rw [← List.map_take]; exact ih n
+example : judge (itemLe [false]) [([.int 2], [.int 0]), ([.int 1], [.int 1]), ([.int 2], [.int 2])]
+    [([.int 2], [.int 2])] 1 1 = .ok := by decide
+example : judge (itemLe [false]) [([.int 2], [.int 0]), ([.int 1], [.int 1]), ([.int 2], [.int 2])]
+    [([.int 1], [.int 1])] 1 1 = .wrongCut := by decide
+example : judge (itemLe [true]) [([.null], [.int 0]), ([.int 1], [.int 1])] [([.null], [.int 0])] 1 0 = .ok := by decide
 
-/-- Replaying the flags with `merge_keep` on the key columns themselves reproduces the merged keys:
-    the flags describe a genuine interleaving of `l` and `r`, so every other column merged with
-    the same flags receives the same row permutation (no row shifted between columns). -/
-theorem C05_merge_keep_replays (desc : Bool) (l r : List Int) (n : Nat) :
-    mergeKeep (merge desc l r n).2 l r = some (merge desc l r n).1 := by
-  fun_induction merge desc l r n
-  · simp [mergeKeep]
-  · exact mergeKeep_right_tail _ _ _
-  · exact mergeKeep_left_tail _ _ _
-  · simp_all [mergeKeep]
-  · simp_all [mergeKeep]
+/-! ## 2. Sorting inside a partition -/
 
-/-- The full merge is a permutation of both inputs … -/
-theorem C05_mergeAll_perm (desc : Bool) (l r : List Int) : (mergeAll desc l r).Perm (l ++ r) := by
-  fun_induction mergeAll desc l r
-  · simp
-  · simp
-  · rename_i a l b r h ih
-    exact List.Perm.cons a ih
-  · rename_i a l b r h ih
-    have : (b :: mergeAll desc (a :: l) r).Perm (b :: (a :: l ++ r)) := List.Perm.cons b ih
-    exact this.trans (List.perm_middle.symm)
+/-- `sort_lex`: stable sorts from the last key to the first are ONE stable sort by the lexicographic comparator. -/
+theorem C05_sort_lex {β : Type} (cmps : List (β → β → Bool)) (h : ∀ c ∈ cmps, TotalPre c) (rows : List β) :
+    sortSucc cmps rows = isort (lexOf cmps) rows := sortSucc_eq_isort_lex cmps h rows
 
-/-- … and sorted whenever both inputs are (any direction, duplicates allowed). -/
-theorem C05_mergeAll_sorted (desc : Bool) (l r : List Int)
-    (hl : l.Pairwise (le desc)) (hr : r.Pairwise (le desc)) :
-    (mergeAll desc l r).Pairwise (le desc) := by
-  fun_induction mergeAll desc l r
-  · exact hr
-  · exact hl
-  · rename_i a l b r h ih
-    have hab : le desc a b := (cmpEq_iff desc a b).mp h
-    rw [List.pairwise_cons] at hl
-    refine List.pairwise_cons.mpr ⟨?_, ih hl.2 hr⟩
-    intro x hx
-    have := (C05_mergeAll_perm desc l (b :: r)).mem_iff.mp hx
-    rw [List.mem_append] at this
-    rcases this with h1 | h1
-    · exact hl.1 x h1
-    · rw [List.pairwise_cons] at hr
-      rcases List.mem_cons.mp h1 with h2 | h2
-      · subst h2; exact hab
-      · exact le_trans desc hab (hr.1 x h2)
-  · rename_i a l b r h ih
-    have hba : le desc b a := by
-      rcases le_total desc a b with h1 | h1
-      · exact absurd ((cmpEq_iff desc a b).mpr h1) (by simpa using h)
-      · exact h1
-    rw [List.pairwise_cons] at hr
-    refine List.pairwise_cons.mpr ⟨?_, ih hl hr.2⟩
-    intro x hx
-    have := (C05_mergeAll_perm desc (a :: l) r).mem_iff.mp hx
-    rw [List.mem_append] at this
-    rcases this with h1 | h1
-    · rw [List.pairwise_cons] at hl
-      rcases List.mem_cons.mp h1 with h2 | h2
-      · subst h2; exact hba
-      · exact le_trans desc hba (hl.1 x h2)
-    · exact hr.1 x h1
+/-- A list sorted by `le` is determined by its tie classes: the stable sort is unique, so modelling
+    `slice::sort_by` by the reference sort assumes exactly "sorted, and ties keep their input order". -/
+theorem C05_stable_sort_unique {α : Type} {le : α → α → Bool} (h : TotalPre le) (s l : List α)
+    (hs : Sorted le s) (hstable : ∀ x, s.filter (eqv le x) = l.filter (eqv le x)) : s = isort le l :=
+  eq_isort h s l hs hstable
 
-/-- Main merge statement: for sorted partial results the engine's limited merge returns the first
-    `n` rows of *the* sorted arrangement of all rows of both partitions. -/
-theorem C05_merge_sorted_prefix (desc : Bool) (l r : List Int) (n : Nat)
-    (hl : l.Pairwise (le desc)) (hr : r.Pairwise (le desc)) :
-    ∃ s : List Int, s.Perm (l ++ r) ∧ s.Pairwise (le desc) ∧ (merge desc l r n).1 = s.take n :=
-  ⟨mergeAll desc l r, C05_mergeAll_perm desc l r, C05_mergeAll_sorted desc l r hl hr,
-   C05_merge_eq_take desc l r n⟩
+example : sortSucc [fun (a b : Nat × Nat) => decide (a.1 ≤ b.1), fun a b => decide (a.2 ≥ b.2)] [(1, 1), (0, 2), (1, 3), (0, 0)]
+    = [(0, 2), (0, 0), (1, 3), (1, 1)] := by decide
 
-example : (merge false [1, 3, 5] [2, 3, 9] 4) = ([1, 2, 3, 3], [1, 0, 1, 0]) := by decide
-example : [1, 3, 5].Pairwise (le false) ∧ [2, 3, 9].Pairwise (le false) := by
-  simp [le]
+/-! ## 3. Merging sorted partial results (one key) -/
+
+/-- The i64 instance exercised through the hooks is the generic model at `cmpEq desc`. -/
+theorem C05_merge_instance (desc : Bool) (l r : List Int) (n : Nat) :
+    Merge.merge desc l r n = Order.merge (cmpEq desc) l r n := by
+  fun_induction Merge.merge desc l r n <;> simp_all [Order.merge]
+
+/-- The limited merge the engine runs is exactly the first `n` rows of the full stable merge, for all inputs and
+    every limit (this is what makes "each partition keeps limit+offset rows" sound). -/
+theorem C05_merge_eq_take {α : Type} (le : α → α → Bool) (l r : List α) (n : Nat) :
+    (Order.merge le l r n).1 = (Order.mergeAll le l r).take n := merge_fst_eq_take le l r n
+
+/-- Replaying the flags with `merge_keep` on the merged column itself reproduces it: the flags describe a genuine
+    interleaving of the two inputs, so every other column merged with the same flags receives the same row
+    permutation (no row shifted between columns). -/
+theorem C05_merge_keep_replays {α : Type} (le : α → α → Bool) (l r : List α) (n : Nat) :
+    Order.mergeKeep (Order.merge le l r n).2 l r = some (Order.merge le l r n).1 := mergeKeep_merge le l r n
+
+/-- The full stable merge of two sorted lists IS the stable sort of their concatenation. -/
+theorem C05_merge_is_stable_sort {α : Type} {le : α → α → Bool} (h : TotalPre le) (l r : List α)
+    (hl : Sorted le l) (hr : Sorted le r) : Order.mergeAll le l r = isort le (l ++ r) := mergeAll_eq_isort h l r hl hr
+
+/-- Main two-way statement: for sorted partial results the limited merge returns the first `n` rows of *the*
+    stable sorted arrangement of all rows of both partitions. -/
+theorem C05_merge_sorted_prefix {α : Type} {le : α → α → Bool} (h : TotalPre le) (l r : List α) (n : Nat)
+    (hl : Sorted le l) (hr : Sorted le r) : (Order.merge le l r n).1 = (isort le (l ++ r)).take n := by
+  rw [merge_fst_eq_take, mergeAll_eq_isort h l r hl hr]
+
+/-- Inputs cut to at least `n` rows give the same first `n` rows: a partition may keep only limit+offset rows. -/
+theorem C05_merge_truncated_inputs {α : Type} (le : α → α → Bool) (n : Nat) (a b : List α) (ka kb : Nat)
+    (ha : n ≤ ka) (hb : n ≤ kb) :
+    (Order.merge le (a.take ka) (b.take kb) n).1 = (Order.merge le a b n).1 := by
+  rw [merge_fst_eq_take, merge_fst_eq_take]; exact take_mergeAll_take le n a b ka kb ha hb
+
+example : Merge.merge false [1, 3, 5] [2, 3, 9] 4 = ([1, 2, 3, 3], [1, 0, 1, 0]) := by decide
+example : Sorted (cmpEq true) [5, 3, 3] ∧ Sorted (cmpEq true) [9, 3] := by
+  simp [Sorted, cmpEq]
+
+/-! ## 4. Final slice -/
+
+/-- `slice_ok`: `convert_to_output_format` is total for every limit / offset / result length (no `Except`: the
+    clamped offset cannot underflow) and returns exactly rows offset+1..offset+limit of the full result, of length
+    `min limit (len - offset)`.  Before the fix (`len - offset` in usize) the statement was refuted by
+    `LIMIT 2 OFFSET 20` on 8 rows; the witness stays in the harness corpus. -/
+theorem C05_slice_ok {β : Type} (full : List β) (limit offset : Nat) :
+    slice full limit offset = (full.drop offset).take limit ∧
+    (slice full limit offset).length = min limit (full.length - offset) :=
+  ⟨slice_eq full limit offset, slice_length full limit offset⟩
+
+example : slice [10, 11, 12] 2 20 = ([] : List Nat) := by decide
+example : slice [10, 11, 12] 2 2 = [12] := by decide
+example : combinedLimit U64_MAX 1 = U64_MAX := by decide
+
+/-! ## 5. Whole query -/
+
+/-- `topn_smallest` as a statement: the rows selected by `TopN` are the first `n` rows of a sorted arrangement of
+    the partition, for every `sort_unstable_by` that returns a sorted permutation. -/
+def C05_topn_statement : Prop :=
+  ∀ (β : Type) (usort : USort), USortLaw usort → ∀ (c : β → β → Bool), TotalPre c → ∀ (n : Nat) (rows : List β),
+    PrefixOf c n rows ((topN usort c n rows).filterMap fun i => rows[i]?)
+
+/-- `topn_smallest`: heap invariant by induction over the input stream (`heap_replace` keeps the worst kept key at
+    the root and exchanges exactly the root for the new row; every dropped row may come after every kept row), the
+    two unstable sorts of the fill phase and the one of `finalize` being ANY functions returning sorted permutations. -/
+theorem C05_topn_smallest : C05_topn_statement :=
+  fun _ usort hlaw _ hc n rows => topN_prefix usort hlaw hc n rows
+
+/-- One `heap_replace` step (the function exercised through the hook): on a heap (worst key at the root) whose
+    parent of `node` may come after the new entry, the result is again a heap and holds exactly the old entries with
+    the one at `node` exchanged for the new one. -/
+theorem C05_heap_replace {α : Type} {le : α → α → Bool} (hle : TotalPre le) (h : List (α × Nat)) (x : α × Nat)
+    (hne : 0 < h.length) (hh : IsHeap le h) :
+    IsHeap le (heapReplace le h.length h x 0) ∧ (heapReplace le h.length h x 0).Perm (h.set 0 x) :=
+  heapReplace_spec hle h.length h x 0 (by omega) hne hh (fun _ h0 _ => by omega)
+
+example : topN (fun le l => isort le l) (fun (a b : Nat) => decide (a ≤ b)) 2 [5, 1, 4, 2, 3] = [1, 3] := by decide +kernel
+example : topN (fun le l => isort le l) (fun (a b : Nat) => decide (a ≥ b)) 3 [5, 1, 4, 2, 3, 9] = [5, 0, 2] := by decide +kernel
+example : topN (fun le l => isort le l) (fun (a b : Nat) => decide (a ≤ b)) 0 [5, 1] = [] := by decide +kernel
+example : USortLaw (fun le l => isort le l) := ⟨fun le l => isort_perm le l, fun _ h l => isort_sorted h l⟩
+
+/-- Multi-key combination as a statement: `merge_partitioned ∘ subpartition* ∘ partition` followed by `merge_keep`
+    is the limited stable merge under the lexicographic comparator (partial results of fewer than 2^32 - 1 rows:
+    the `Premerge` counters and the limit inside `partition` are u32). -/
+def C05_multikey_statement : Prop :=
+  ∀ (β : Type) (c₁ c₂ : β → β → Bool) (cs : List (β → β → Bool)), (∀ c ∈ c₁ :: c₂ :: cs, TotalPre c) →
+    ∀ (a b : List β) (n : Nat), a.length + b.length < U32_MAX →
+      Sorted (lexOf (c₁ :: c₂ :: cs)) a → Sorted (lexOf (c₁ :: c₂ :: cs)) b →
+      combineSorted (c₁ :: c₂ :: cs) a b n = some ((Order.mergeAll (lexOf (c₁ :: c₂ :: cs)) a b).take n)
+
+/-- `merge_partitioned ∘ subpartition* ∘ partition` + `merge_keep` = lexicographic merge prefix, for any number
+    of keys ≥ 2, any directions, any limit (incl. 0 and > u32::MAX), ties allowed everywhere. -/
+theorem C05_multikey : C05_multikey_statement := by
+  intro β c₁ c₂ cs hc a b n hlen ha hb
+  have hK : (c₂ :: cs).dropLast ++ [(c₂ :: cs).getLast (by simp)] = c₂ :: cs := List.dropLast_concat_getLast _
+  have hmid : ∀ c ∈ (c₂ :: cs).dropLast, TotalPre c := fun c hc' =>
+    hc c (List.mem_cons_of_mem _ ((List.dropLast_sublist _).subset hc'))
+  have := combineSortedN_eq c₁ ((c₂ :: cs).dropLast) ((c₂ :: cs).getLast (by simp)) (hc c₁ (by simp)) hmid a b n hlen
+    (by rw [hK]; exact ha) (by rw [hK]; exact hb)
+  rw [hK] at this
+  exact this
+
+example : combineSorted [fun (a b : Nat × Nat) => decide (a.1 ≤ b.1), fun a b => decide (a.2 ≥ b.2)]
+    [(0, 5), (1, 7), (1, 2)] [(0, 9), (1, 7), (2, 0)] 4 = some [(0, 9), (0, 5), (1, 7), (1, 7)] := by decide +kernel
+
+/-- The property at full strength on the model: for every table, every split into partitions, every bracketing
+    of the pairwise merges, every strategy choice, every unstable sort, every limit and offset, the query does not
+    fault and returns rows offset+1..offset+limit of a sorted arrangement of the filtered rows. -/
+def C05_order_statement : Prop :=
+  ∀ (β : Type) (usort : USort), USortLaw usort →
+  ∀ (cmps : List (β → β → Bool)), cmps ≠ [] → (∀ c ∈ cmps, TotalPre c) →
+  ∀ (constant : Bool) (limit offset : Nat) (t : PTree β), t.rows.length < U32_MAX →
+    ∃ out, runQuery usort cmps constant limit offset t = some out ∧
+      OrderSpec (lexOf cmps) t.rows out limit offset
+
+/-- The top-level statement follows from the two operator-level statements (everything else — strategy choice,
+    stable sorts, any merge tree, truncation to limit+offset, saturating limit arithmetic, final slice — is proved
+    here). -/
+theorem C05_order_from_operators (hTopN : C05_topn_statement) (hMulti : C05_multikey_statement) : C05_order_statement := by
+  intro β usort hlaw cmps hne hc constant limit offset t hlen
+  have hle : TotalPre (lexOf cmps) := lexOf_totalPre cmps hc
+  have hleaf : ∀ partLen rows, PrefixOf (lexOf cmps) (combinedLimit limit offset) rows
+      (partRun usort cmps constant (combinedLimit limit offset) partLen rows) := by
+    intro partLen rows
+    cases cmps with
+    | nil => exact absurd rfl hne
+    | cons c cs =>
+      simp only [partRun]
+      split
+      · rename_i htop
+        have hlen1 : (c :: cs).length = 1 := by
+          simp [useTopN] at htop; simpa using htop.1.2
+        have hcs : cs = [] := by
+          cases cs with
+          | nil => rfl
+          | cons _ _ => simp at hlen1
+        subst hcs
+        rw [lexOf_single]
+        exact hTopN β usort hlaw c (hc c (by simp)) _ rows
+      · rw [sortSucc_eq_isort_lex (c :: cs) hc]
+        exact prefixOf_isort hle _ rows
+  have hcomb : ∀ a b, Sorted (lexOf cmps) a → Sorted (lexOf cmps) b → a.length + b.length ≤ t.rows.length →
+      combineSorted cmps a b (combinedLimit limit offset)
+        = some ((Order.mergeAll (lexOf cmps) a b).take (combinedLimit limit offset)) := by
+    intro a b hsa hsb hab
+    match cmps, hne, hc, hsa, hsb with
+    | [c], _, _, _, _ => rw [lexOf_single]; exact combineSorted1_eq c a b _
+    | c₁ :: c₂ :: cs, _, hc, hsa, hsb => exact hMulti β c₁ c₂ cs hc a b _ (by omega) hsa hsb
+  obtain ⟨full, hfull, hp⟩ := evalTree_prefix usort cmps constant _ _ hne hle hleaf hcomb t (Nat.le_refl _)
+  have hlen64 : t.rows.length ≤ U64_MAX := by
+    have : U32_MAX ≤ U64_MAX := by decide
+    omega
+  exact ⟨slice full limit offset, by simp [runQuery, hfull], prefixOf_slice limit offset hlen64 hp⟩
+
+/-- `C05_order`: the property at full strength holds on the model (tables of fewer than 2^32 - 1 rows). -/
+theorem C05_order : C05_order_statement := C05_order_from_operators C05_topn_smallest C05_multikey
+
+/-- One key (the common case), any strategy mix, any unstable sort: only the u64 row bound is needed (the u32
+    counters belong to the multi-key path). -/
+theorem C05_order_one_key {β : Type} (usort : USort) (hlaw : USortLaw usort) (c : β → β → Bool) (hc : TotalPre c)
+    (constant : Bool) (limit offset : Nat) (t : PTree β) (hlen : t.rows.length ≤ U64_MAX) :
+    ∃ out, runQuery usort [c] constant limit offset t = some out ∧ OrderSpec c t.rows out limit offset := by
+  have hle : TotalPre (lexOf [c]) := by rw [lexOf_single]; exact hc
+  have hleaf : ∀ partLen rows, PrefixOf (lexOf [c]) (combinedLimit limit offset) rows
+      (partRun usort [c] constant (combinedLimit limit offset) partLen rows) := by
+    intro partLen rows
+    rw [lexOf_single]
+    simp only [partRun]
+    split
+    · exact topN_prefix usort hlaw hc _ rows
+    · have : sortSucc [c] rows = isort c rows := rfl
+      rw [this]; exact prefixOf_isort hc _ rows
+  have hcomb : ∀ a b, Sorted (lexOf [c]) a → Sorted (lexOf [c]) b → a.length + b.length ≤ t.rows.length →
+      combineSorted [c] a b (combinedLimit limit offset)
+        = some ((Order.mergeAll (lexOf [c]) a b).take (combinedLimit limit offset)) := by
+    intro a b _ _ _; rw [lexOf_single]; exact combineSorted1_eq c a b _
+  obtain ⟨full, hfull, hp⟩ := evalTree_prefix usort [c] constant _ _ (by simp) hle hleaf hcomb t (Nat.le_refl _)
+  refine ⟨slice full limit offset, by simp [runQuery, hfull], ?_⟩
+  have := prefixOf_slice limit offset hlen hp
+  rwa [lexOf_single] at this
+
+/-- Without ORDER BY the rows come back in ingestion order: exactly rows offset+1..offset+limit of the table, for
+    every partitioning and every bracketing of the pairwise appends. -/
+theorem C05_plain {β : Type} (usort : USort) (constant : Bool) (limit offset : Nat) (t : PTree β)
+    (hlen : t.rows.length ≤ U64_MAX) :
+    runQuery usort ([] : List (β → β → Bool)) constant limit offset t = some (plainSpec t.rows limit offset) := by
+  obtain ⟨k, hk, he⟩ := evalTree_plain usort constant (combinedLimit limit offset) t
+  simp only [runQuery, he, Option.map_some, plainSpec]
+  congr 1
+  rw [slice_eq]
+  apply take_drop_take
+  unfold combinedLimit at hk
+  by_cases h : limit + offset ≤ U64_MAX
+  · left; omega
+  · right; omega
+
+example : runQuery (fun le l => isort le l) ([] : List (Nat → Nat → Bool)) false 2 1
+    (.node (.leaf 2 [7, 8]) (.leaf 3 [9, 10, 11])) = some [8, 9] := by decide
+example : runQuery (fun le l => isort le l) [fun (a b : Nat) => decide (a ≤ b)] false 2 1
+    (.node (.leaf 2 [8, 7]) (.leaf 3 [9, 11, 5])) = some [7, 8] := by decide
+
+end LM.C05
+
+/-! ## 6. The comparator the engine really uses on fused keys (known finding C05-nan-null-tie) -/
+namespace LM.C05
+open LM LM.Sql LM.OrderSpec LM.OrderFused
+
+/-- Full statement: comparing fused float keys is comparing by the specification's order (NULL after every value). -/
+def C05_fused_float_statement : Prop :=
+  ∀ (desc : Bool) (a b : Val), isFloatOrNull a = true → isFloatOrNull b = true → fusedFloatLe desc a b = valLe desc a b
+
+/-- It holds when neither value is a NaN … -/
+theorem C05_fused_float_partial (desc : Bool) (a b : Val) (ha : isFloatOrNull a = true) (hb : isFloatOrNull b = true)
+    (hna : isNaNVal a = false) (hnb : isNaNVal b = false) : fusedFloatLe desc a b = valLe desc a b := by
+  cases a <;> cases b <;> simp [isFloatOrNull] at ha hb
+  · cases desc <;> simp [fusedFloatLe, fuseFloat, valLe, valLt, valRank]
+  · rename_i y
+    have h1 := floatKey_lt_of_not_nan y hnb
+    have h2 : ¬ (9223372036854775808 : Int) ≤ floatKey y := by omega
+    have h3 : floatKey y ≤ 9223372036854775808 := by omega
+    cases desc <;> simp [fusedFloatLe, fuseFloat, valLe, valLt, valRank, floatKey_null, h2, h3]
+  · rename_i x
+    have h1 := floatKey_lt_of_not_nan x hna
+    have h2 : ¬ (9223372036854775808 : Int) ≤ floatKey x := by omega
+    have h3 : floatKey x ≤ 9223372036854775808 := by omega
+    cases desc <;> simp [fusedFloatLe, fuseFloat, valLe, valLt, valRank, floatKey_null, h2, h3]
+  · rename_i x y
+    cases desc <;> simp only [fusedFloatLe, fuseFloat, valLe, valLt, Bool.false_eq_true, if_false, if_true, ge_iff_le]
+    · exact decide_le_eq_not_lt _ _
+    · exact decide_le_eq_not_lt _ _
+
+/-- … and is refuted by NULL against a NaN value: the engine may put NULL first (ascending); replayed on the real
+    code by the harness (`corpus:nan-null`, two partitions `[NULL, NaN] | [NaN]`). -/
+theorem C05_fused_float_refuted : ¬ C05_fused_float_statement := by
+  intro h
+  have := h false .null (.float 0x7ff8000000000000) rfl rfl
+  revert this; decide
+
+/-- Integer keys: the sentinel is outside the value domain, so fused comparison is the specification's. -/
+theorem C05_fused_int (desc : Bool) (a b : Val) (ha : a = .null ∨ ∃ i, a = .int i ∧ i < I64_MAX)
+    (hb : b = .null ∨ ∃ i, b = .int i ∧ i < I64_MAX) : fusedIntLe desc a b = valLe desc a b := by
+  rcases ha with rfl | ⟨i, rfl, hi⟩ <;> rcases hb with rfl | ⟨j, rfl, hj⟩
+  · cases desc <;> simp [fusedIntLe, fuseInt, valLe, valLt, valRank]
+  · have h1 : ¬ I64_MAX ≤ j := by omega
+    have h2 : j ≤ I64_MAX := by omega
+    cases desc <;> simp [fusedIntLe, fuseInt, valLe, valLt, valRank, h1, h2]
+  · have h1 : ¬ I64_MAX ≤ i := by omega
+    have h2 : i ≤ I64_MAX := by omega
+    cases desc <;> simp [fusedIntLe, fuseInt, valLe, valLt, valRank, h1, h2]
+  · cases desc <;> simp only [fusedIntLe, fuseInt, valLe, valLt, Bool.false_eq_true, if_false, if_true, ge_iff_le]
+    · exact decide_le_eq_not_lt _ _
+    · exact decide_le_eq_not_lt _ _
+
+example : isNaNVal (.float 0x7ff8000000000000) = true ∧ isNaNVal (.float 0x3ff0000000000000) = false := by decide
+example : nanAndNull [.float 0x7ff8000000000000, .int 3, .null] = true := by decide
 
 end LM.C05
